@@ -77,6 +77,7 @@ func VX_C08_GracefulClose(args []int) {
 // The call must complete and Close must return.
 // args: ending(0 connection lost, 1 reply arrives then connection ends)
 func VX_C02_CloseThenLoss(args []int) {
+	snaps := vxSnapSentinels()
 	p := vxNewPeer()
 	conn := newVxConn("cli:1", "srv:2")
 	sess, st := p.ServeConn(conn)
@@ -109,5 +110,6 @@ func VX_C02_CloseThenLoss(args []int) {
 	vxAssert(len(ch) == 1, "delivered exactly once to the completion channel")
 	vxAssert(vxClosedChan(closeDone), "Close returns")
 	vxAssert(vxBlockedThreads() == 0, "nothing left blocked")
+	vxCheckSentinels(snaps)
 	vxCover("c02.close-then-loss")
 }
